@@ -733,7 +733,9 @@ fn history_case(ctx: &Ctx, dir: &std::path::Path, case: u64, seed: u64, rep: &mu
             }
         }
     }
-    let gens = if prop == "C17" { make_generations(&mut proj, &mut rng) } else { vec![] };
+    // C02 over generated manifests (every fifth history): C17's operations, C02's oracle
+    let regen_c02 = prop == "C02" && rng.chance(1, 5);
+    let gens = if prop == "C17" || regen_c02 { make_generations(&mut proj, &mut rng) } else { vec![] };
     clear_dir(dir);
     let mut world = World::new(dir.to_path_buf(), proj);
     world.next_gens = gens;
@@ -760,7 +762,7 @@ fn history_case(ctx: &Ctx, dir: &std::path::Path, case: u64, seed: u64, rep: &mu
         }
         let do_build = hist.ops.is_empty() || rng.chance(1, 2);
         if !do_build {
-            if let Some(o) = random_edit(prop, &mut rng, &mut world) {
+            if let Some(o) = random_edit(if regen_c02 { "C17" } else { prop }, &mut rng, &mut world) {
                 hist.sig = fnv_combine(hist.sig, fnv(o.dump().as_bytes()));
                 hist.ops.push(o);
                 hist.edits_between = true;
@@ -774,7 +776,7 @@ fn history_case(ctx: &Ctx, dir: &std::path::Path, case: u64, seed: u64, rep: &mu
             // -f with a non-canonical spelling of the manifest's name
             inv.build_file = Some(respell(&world.proj.manifest, &mut rng));
         }
-        if prop == "C17" {
+        if prop == "C17" || regen_c02 {
             inv.targets = pick_outs(&world.proj, &mut rng);
             if rng.chance(1, 6) {
                 inv.faults.insert("gen".into(), FailMode::Nothing);
@@ -785,7 +787,7 @@ fn history_case(ctx: &Ctx, dir: &std::path::Path, case: u64, seed: u64, rep: &mu
             inv.adopt = true;
             inv.faults.clear();
         }
-        if matches!(prop, "C02" | "C03" | "C08" | "C09") && !restat && rng.chance(1, 8) {
+        if matches!(prop, "C02" | "C03" | "C08" | "C09") && !restat && !regen_c02 && rng.chance(1, 8) {
             // n2 dies while appending to the log (any write, any byte count): later invocations
             // see exactly the records that were completely written
             inv.crash = Some((rng.below(8), rng.below(30)));
